@@ -57,7 +57,9 @@ def arm_setattr(ctx):
 
         def make(orig, cls):
             def __setattr__(self, name, value):
-                if _armed["on"]:
+                if _armed["on"] and not name.startswith("_"):
+                    # public, meaning-bearing attributes only: a private memo that does not change the definition's
+                    # meaning is not "modifying the definition" (its effects, if any, show up in the behavioural checks)
                     _writes.append((cls.__name__, name))
                 return orig(self, name, value)
             return __setattr__
@@ -93,7 +95,7 @@ def snapshot(obj, seen=None, depth=0):
         # closures (linear adjusters): capture their cell contents
         cells = [snapshot(c.cell_contents, seen, depth + 1) for c in (getattr(obj, "__closure__", None) or ()) if _cell_ok(c)]
         return ("fn", getattr(obj, "__qualname__", "?"), cells)
-    return ("obj", type(obj).__name__, [(k, snapshot(v, seen, depth + 1)) for k, v in d.items()])
+    return ("obj", type(obj).__name__, [(k, snapshot(v, seen, depth + 1)) for k, v in d.items() if not k.startswith("_")])
 
 
 def _cell_ok(c):
